@@ -58,6 +58,21 @@ def run_real(rp, spec, ops):
             except Exception as e:
                 answers.append('Error')
             trace.append({'op': o, 'before': before, 'after': state(nl), 'answer': answers[-1], 'held': {k: [slot_canon(s) for s in v] for k, v in held.items()}})
+        elif o[0] == 'alloc':
+            # a slot of the application's own making, placed with the consistency checks of allocate_slot
+            from radical.pilot.resource_config import Slot, RO
+            sd = o[3]
+            before = state(nl)
+            try:
+                node = nl.nodes[o[2]]
+                slot = Slot(cores=[RO(index=i, occupation=oc / float(U)) for i, oc in sd['cores']],
+                            gpus=[RO(index=i, occupation=oc / float(U)) for i, oc in sd['gpus']],
+                            lfs=sd['lfs'], mem=sd['mem'], node_index=sd['node'], node_name='node-%04d' % sd['node'])
+                node.allocate_slot(slot)
+                held[o[1]] = [slot]; answers.append('ok')
+            except Exception:
+                answers.append('Error')
+            trace.append({'op': o, 'before': before, 'after': state(nl), 'answer': answers[-1], 'held': {k: [slot_canon(s) for s in v] for k, v in held.items()}})
         else:
             if o[1] in held:
                 nl.release_slots(held.pop(o[1])); answers.append('released')
@@ -80,6 +95,16 @@ def gen(rng):
     for _ in range(rng.randint(3, 14)):
         if live and rng.random() < 0.4:
             h = rng.choice(live); live.remove(h); ops.append(['release', h])
+        elif rng.random() < 0.25:
+            # the application supplies a slot itself: distinct core / GPU indices (sometimes out of range), whole or
+            # half occupations, on any node - whatever is held there at the moment
+            pos = rng.randrange(nn)
+            cs = rng.sample(range(nc + (1 if rng.random() < 0.05 else 0)), rng.randint(1, min(2, nc)))
+            gs = rng.sample(range(ng), rng.randint(0, min(2, ng))) if ng else []
+            sd = {'node': pos if rng.random() < 0.95 else (pos + 1) % max(nn, 2), 'cores': [[c, rng.choice([U, U, 8])] for c in cs],
+                  'gpus': [[g, rng.choice([U, U, 8])] for g in gs],
+                  'lfs': rng.choice([0, 0, 30]) if lfs else 0, 'mem': rng.choice([0, 0, 16]) if mem else 0}
+            ops.append(['alloc', hid, pos, sd]); live.append(hid); hid += 1
         else:
             rr = {'n_cores': rng.choice([1, 1, 2, nc, rng.randint(1, nc)]), 'core_occ': rng.choice([U, U, U, 8, 4]),
                   # rank shapes with more GPUs than cores, GPUs partly taken by earlier requests
